@@ -7,7 +7,7 @@ def register(reg):
     reg.spec("hkey(self, i)", "self._list[i][0].lower()")
     reg.spec("has_key(self, key)", "exists(0, len(self._list), lambda i: hkey(self, i) == key.lower())")
     reg.contract(
-        "werkzeug/datastructures/headers.py:Headers._get_key", prop=P, self_model=H, replay="method", params={"key": "str"}, returns="str",
+        "werkzeug/datastructures/headers.py:Headers._get_key", prop=P, modifies=[], self_model=H, replay="method", params={"key": "str"}, returns="str",
         ensures=[
             # the value of the FIRST pair whose key equals `key` case-insensitively
             "exists(0, len(self._list), lambda i: hkey(self, i) == key.lower() and result == self._list[i][1] and "
@@ -17,17 +17,20 @@ def register(reg):
         loops={0: {"inv": ["forall(0, _i, lambda j: hkey(self, j) != ikey)", "ikey == key.lower()"]}},
     )
     reg.contract(
-        "werkzeug/datastructures/headers.py:Headers.__contains__", prop=P, self_model=H, params={"key": "str"}, returns="bool",
+        "werkzeug/datastructures/headers.py:Headers.__contains__", prop=P, modifies=[], self_model=H, params={"key": "str"}, returns="bool",
         inline_callees=["werkzeug/datastructures/headers.py:Headers._get_key"],
         ensures=["result == has_key(self, key)"],
     )
     reg.contract(
-        "werkzeug/datastructures/headers.py:Headers.__len__", prop=P, self_model=H, returns="int",
+        "werkzeug/datastructures/headers.py:Headers.__len__", prop=P, modifies=[], self_model=H, returns="int",
         ensures=["result == len(self._list)"],
     )
     reg.contract(
         "werkzeug/datastructures/headers.py:Headers._del_key", prop=P, self_model=H, replay="method", params={"key": "str"},
+        modifies=["self._list"],
         ensures=[
+            # removal never introduces a value: the no-CR/LF invariant of C05 survives
+            "implies(old(I_h(self)), I_h(self))",
             # every pair with that key (any letter case) is gone, the others keep their relative order
             "not has_key(self, key)",
             "len(self._list) <= len(old(self._list))",
@@ -41,11 +44,11 @@ def register(reg):
                            "self._list == old(self._list)"]}},
     )
     reg.contract(
-        "werkzeug/datastructures/headers.py:Headers.clear", prop=P, self_model=H,
+        "werkzeug/datastructures/headers.py:Headers.clear", prop=P, modifies=["self._list"], self_model=H,
         ensures=["len(self._list) == 0"],
     )
     reg.contract(
-        "werkzeug/datastructures/headers.py:Headers.popitem", prop=P, self_model=H,
+        "werkzeug/datastructures/headers.py:Headers.popitem", prop=P, modifies=["self._list"], self_model=H,
         ensures=["len(self._list) == len(old(self._list)) - 1",
                  "result[0] == old(self._list)[len(old(self._list)) - 1][0] and result[1] == old(self._list)[len(old(self._list)) - 1][1]"],
         raises={"IndexError": "len(old(self._list)) == 0"},
@@ -55,11 +58,14 @@ def register(reg):
     reg.spec("first_at(lst, key, p)", "lst[p][0].lower() == key.lower() and forall(0, p, lambda j: lst[j][0].lower() != key.lower())")
     # ---- Headers.set: replace the first pair with that key (any letter case), drop the later ones, or append
     reg.contract(
-        "werkzeug/datastructures/headers.py:Headers.set", prop="C08,C05,C16", self_model=H, replay="method",
+        "werkzeug/datastructures/headers.py:Headers.set", prop="C08,C05,C16", self_model=H, replay="method", modifies=["self._list"], raise_modifies=[],
         params={"key": "str"}, cases=[{"value": "str"}, {"value": "int"}],
+        ghost_params={"k2": "str"},
         requires=["I_h(self)"],
         ensures=[
             "I_h(self)",
+            # setting one key never makes another key appear (k2: an arbitrary other key, chosen by the caller)
+            "implies(k2.lower() != key.lower() and not old(has_key(self, k2)), not has_key(self, k2))",
             # no pair had the key: appended at the end, nothing else touched
             "implies(not old(has_key(self, key)), len(self._list) == len(old(self._list)) + 1 and "
             "        self._list[len(self._list) - 1][0] == key and self._list[len(self._list) - 1][1] == hv(value) and "
@@ -88,4 +94,48 @@ def register(reg):
             "assert forall(0, idx, lambda j: self._list[j][0] == old(self._list)[j][0] and self._list[j][1] == old(self._list)[j][1])",
             "assert self._list[idx][0] == key and self._list[idx][1] == value_str and len(self._list) <= len(old(self._list)) and idx < len(self._list)",
         ]},
+    )
+
+    reg.contract(
+        "werkzeug/datastructures/headers.py:Headers.remove", prop="C08,C05", self_model=H, replay="method", params={"key": "str"},
+        modifies=["self._list"],
+        ensures=["not has_key(self, key)", "len(self._list) <= len(old(self._list))", "implies(old(I_h(self)), I_h(self))"],
+    )
+    reg.contract(
+        "werkzeug/datastructures/headers.py:Headers.__delitem__#str", prop="C08", self_model=H, params={"key": "str"},
+        modifies=["self._list"],
+        ensures=["not has_key(self, key)", "len(self._list) <= len(old(self._list))", "implies(old(I_h(self)), I_h(self))"],
+    )
+    SET_ENS = [
+        "I_h(self)", "has_key(self, key)",
+        "implies(k2.lower() != key.lower() and not old(has_key(self, k2)), not has_key(self, k2))",
+        "implies(not old(has_key(self, key)), forall(0, len(old(self._list)), lambda i: self._list[i][0] == old(self._list)[i][0] and "
+        "        self._list[i][1] == old(self._list)[i][1]))",
+        "implies(not old(has_key(self, key)), len(self._list) == len(old(self._list)) + 1 and "
+        "        self._list[len(self._list) - 1][0] == key and self._list[len(self._list) - 1][1] == hv(value))",
+        "implies(old(has_key(self, key)), len(self._list) <= len(old(self._list)) and "
+        "   exists(0, len(old(self._list)), lambda p: first_at(old(self._list), key, p) and p < len(self._list) and "
+        "          self._list[p][0] == key and self._list[p][1] == hv(value)))",
+    ]
+    reg.contract(
+        "werkzeug/datastructures/headers.py:Headers.__setitem__#str", prop="C08,C05,C16", self_model=H,
+        params={"key": "str"}, cases=[{"value": "str"}, {"value": "int"}], modifies=["self._list"],
+        ghost_params={"k2": "str"}, call_ghost={"werkzeug/datastructures/headers.py:Headers.set": {"k2": "k2"}},
+        requires=["I_h(self)"], ensures=SET_ENS,
+        raises={"ValueError": "isinstance(value, str) and not clean(value)"},
+        raises_ensures={"ValueError": ["self._list == old(self._list)"]},
+    )
+    reg.contract(
+        "werkzeug/datastructures/headers.py:Headers.setdefault", prop="C08,C05", self_model=H, replay="method",
+        params={"key": "str"}, cases=[{"default": "str"}, {"default": "int"}], modifies=["self._list"], returns="str",
+        requires=["I_h(self)"],
+        ensures=[
+            "I_h(self)", "has_key(self, key)",
+            # present: untouched, the first value is returned; absent: appended (as a checked header value) and returned
+            "implies(old(has_key(self, key)), self._list == old(self._list))",
+            "exists(0, len(self._list), lambda i: first_at(self._list, key, i) and result == self._list[i][1])",
+            "implies(not old(has_key(self, key)), len(self._list) == len(old(self._list)) + 1 and result == hv(default))",
+        ],
+        raises={"ValueError": "not old(has_key(self, key)) and isinstance(default, str) and not clean(default)"},
+        raises_ensures={"ValueError": ["self._list == old(self._list)"]},
     )
